@@ -24,6 +24,18 @@ def run(rep, tier, seed, replay):
                 "least one matching and one non-matching entry")
     n = 420 if tier == "quick" else 6000
     cases = walklib.gen_cases(seed, n, stack=lambda r, v, d: ("-", "-", []), bounds="none", mode="g")
+    if replay is None:
+        # expressions OUTSIDE the syntax that become buildable if the parser grows an escape: a separator or a backslash written
+        # as an escape inside a literal (a parse error today; if such an expression builds, it is a glob like any other and
+        # its walk is judged like any other)
+        extra = []
+        for c in cases:
+            if len(extra) >= (40 if tier == "quick" else 400):
+                break
+            if "/" in c.expr and not c.expr.startswith(("/", "@ROOT")) and "\\" not in c.expr:
+                i = c.expr.index("/")
+                extra.append(c.clone(expr=c.expr[:i] + "\\/" + c.expr[i + 1:]))
+        cases += extra
     if replay is not None:
         cases = [walklib.case_from(replay["input"])]
     twins = []
